@@ -72,6 +72,7 @@ type HookCall struct {
 	Args      string
 	PreStored string // observation of the store at call time (see listener)
 	Injected  bool
+	Raw       string // bid hooks: the bidder string exactly as the listener received it
 }
 
 type Injector struct {
@@ -344,7 +345,13 @@ func (n *Node) openApp() error {
 				l.k = k
 				hs = append(hs, l)
 			}
-			k.VerifSetHooks(types.NewMultiFundraisingHooks(hs...))
+			// three listeners are registered the way two modules would register them: a group of two
+			// inside the outer group (the same listeners in the same order as the flat registration)
+			if len(hs) == 3 {
+				k.VerifSetHooks(types.NewMultiFundraisingHooks(types.NewMultiFundraisingHooks(hs[0], hs[1]), hs[2]))
+			} else {
+				k.VerifSetHooks(types.NewMultiFundraisingHooks(hs...))
+			}
 		}
 	}
 	defer func() { keeper.VerifInstrument = nil }()
